@@ -369,7 +369,8 @@ class VarianceMeanCount(object):
                     "can not get corrected variance from a sample "
                     "with one element"
                 )
-            var *= count/float(count - 1)
+            # multiplication by a float would fail for a Decimal (DSum)
+            var = var * count / (count - 1)
 
         res = variance_mean_count(var, mean, count)
 
